@@ -358,12 +358,15 @@ func cmdReplay(args []string) int {
 		fmt.Fprintln(os.Stderr, err)
 		return 2
 	}
+	abs, _ := filepath.Abs(args[0])
+	if rf.Harness.EngineOnly {
+		return engineReplay(rf, abs)
+	}
 	_, realOv, err := overlayFor(rf.Harness.Files)
 	if err != nil {
 		fmt.Fprintln(os.Stderr, err)
 		return 2
 	}
-	abs, _ := filepath.Abs(args[0])
 	res, text := runNative(rf.Harness, rf.Args, realOv, []string{abs}, 60*time.Second)
 	defer cleanupWork()
 	fmt.Println(text)
@@ -373,6 +376,50 @@ func cmdReplay(args []string) int {
 		return 1
 	}
 	fmt.Printf("not reproduced: %v\n", res)
+	return 0
+}
+
+// engineReplay re-executes the recorded decision sequence (inputs, schedule, crash point) of
+// a counterexample whose harness has no native counterpart, against /repo's current tree.
+func engineReplay(rf ReplayFile, abs string) int {
+	h := rf.Harness
+	ov, _, err := overlayFor(h.Files)
+	if err != nil {
+		fmt.Fprintln(os.Stderr, err)
+		return 2
+	}
+	patterns := []string{"unicode/utf8", "errors", "fmt", symgo.RTPath, h.Pkg}
+	pg, err := symgo.Load(symgo.LoadConfig{Dir: filepath.Join(verifRoot, "engine"), Patterns: patterns, Overlay: ov, Tags: "verif,appengine"})
+	if err != nil {
+		fmt.Fprintln(os.Stderr, "cannot load the harness against this tree:", err)
+		return 2
+	}
+	registerHooks(pg)
+	for from, to := range h.Redirects {
+		i := strings.LastIndex(to, ".")
+		if err := pg.Redirect(from, to[:i], to[i+1:]); err != nil {
+			fmt.Fprintln(os.Stderr, err)
+			return 2
+		}
+	}
+	opt := symgo.Options{Workers: 1, Prefix: rf.Failure.Decisions, MaxPaths: 1, QueryTimeout: 60 * time.Second}
+	for _, a := range rf.Args {
+		opt.Args = append(opt.Args, a)
+	}
+	res, err := pg.Explore(h.Entry, h.Pkg, opt)
+	defer cleanupWork()
+	if err != nil {
+		fmt.Fprintln(os.Stderr, err)
+		return 2
+	}
+	for _, f := range res.Failures {
+		if f.Kind == rf.Failure.Kind && f.Msg == rf.Failure.Msg || f.Kind == "hang" && rf.Failure.Kind == "hang" {
+			fmt.Printf("VIOLATION property=%s replay=%s\n", rf.Property, abs)
+			fmt.Printf("  reproduced in the engine (recorded inputs and schedule): %s: %s at %s\n", f.Kind, f.Msg, f.Site)
+			return 1
+		}
+	}
+	fmt.Printf("not reproduced: the recorded path ends without that failure (%d path(s), %d other failure(s))\n", res.Paths, len(res.Failures))
 	return 0
 }
 
